@@ -1,6 +1,7 @@
 (* C13 — property theorems only.  Each is closed by [exact] of a lemma proved in
    C13_Proofs.v and followed by Print Assumptions. *)
 Require Import V.Lib V.GoPath V.C13_Model V.C13_Proofs.
+Require V.Gen_C20 V.C19_Model V.C20_Model.
 From Coq Require Import Permutation.
 Open Scope list_scope.
 Open Scope N_scope.
@@ -126,6 +127,54 @@ Theorem C13_demux_complete :
 Proof. exact demux_complete. Qed.
 Print Assumptions C13_demux_complete.
 
+(* Progress: FCGIClient.Request reads the response through bufio.Reader, which gives up
+   (io.ErrNoProgress, the client gets 502 and everything is lost) after 100 consecutive reads
+   returning (0, nil).  For EVERY framing — any interleaving and ANY run length of stderr records,
+   before, inside or after the header block, empty stderr records included — and EVERY sequence
+   of caller buffers, the reader returns (0, nil) only when it consumed an EMPTY OUTPUT record:
+   the number of such reads, hence the longest run of them, is bounded by the number of empty
+   output records the responder sent, and a responder sending fewer than 100 (a conforming one
+   sends one, the stream terminator) never exhausts bufio's budget. *)
+Theorem C13_reader_progress :
+  forall recs tail sizes t,
+  Forall valid_rec recs ->
+  sr_reads (sr_init (wire_of recs ++ enc_rec end_rec ++ tail)) sizes = Ok t ->
+  (stalls t <= length (filter empty_out recs))%nat /\
+  (max_stall_run t <= length (filter empty_out recs))%nat /\
+  ((length (filter empty_out recs) < BUFIO_EMPTY_READS)%nat -> bufio_ok t = true).
+Proof. exact reader_progress. Qed.
+Print Assumptions C13_reader_progress.
+
+(* 150 stderr records in a row inside the header block: every read still delivers bytes *)
+Example C13_reader_progress_nonvacuous :
+  sr_reads (sr_init (wire_of ([(6, bs "Status: 2", 0)] ++ repeat (7, bs "E", 7) 150 ++ [(7, [], 0); (6, bs "00", 0); (6, [], 0)])
+                     ++ enc_rec end_rec)) [64; 64; 64; 64]%nat
+  = Ok [(64, 9, None); (64, 2, None); (64, 0, None); (64, 0, Some REOF)]%nat.
+Proof. vm_compute. reflexivity. Qed.
+
+(* The bound is tight, and the hypothesis of the last clause necessary: the reader does return
+   (0, nil) on every empty output record (so did the code before this round), hence a responder
+   that sends 100 empty stdout records in a row — which no conforming responder does, an empty
+   record closes the stream — exhausts the budget. *)
+Theorem C13_reader_progress_tight :
+  exists recs sizes t,
+    Forall valid_rec recs /\ length (filter empty_out recs) = BUFIO_EMPTY_READS /\
+    sr_reads (sr_init (wire_of recs ++ enc_rec end_rec)) sizes = Ok t /\ bufio_ok t = false.
+Proof. exact reader_progress_tight. Qed.
+Print Assumptions C13_reader_progress_tight.
+
+(* [sr_reads] is the call-by-call view of the very reads [sr_read_all] accumulates *)
+Theorem C13_reads_are_the_reads :
+  forall sizes s acc,
+  exists t, sr_reads s sizes = Ok t /\
+  match sr_read_all s sizes acc with
+  | Ok (d, e, _) => (length d = length (concat (rev acc)) + fold_right (fun x a => snd (fst x) + a) 0 t)%nat /\
+                    (match e with None => True | Some _ => exists m n, last t (0, 0, None)%nat = (m, n, e) end)
+  | Panic => False
+  end.
+Proof. exact sr_reads_all. Qed.
+Print Assumptions C13_reads_are_the_reads.
+
 (* The response as a whole: for EVERY conforming head (fields) and body, EVERY framing of
    head ++ body into output records with stderr records interleaved anywhere, what the client
    side parses is exactly the responder's fields and body; stderr is complete and separate. *)
@@ -231,29 +280,125 @@ Theorem C13_env_headers_arrive :
 Proof. exact env_headers_arrive. Qed.
 Print Assumptions C13_env_headers_arrive.
 
-(* every configured env entry arrives (the last one of a name wins) unless a request header maps
-   to the same name or it is one of REQUEST_METHOD / CONTENT_LENGTH / CONTENT_TYPE, which the
-   client sets per method *)
+(* every configured env entry arrives EXPANDED (the last one of a name wins) unless a request
+   header maps to the same name or it is one of REQUEST_METHOD / CONTENT_LENGTH / CONTENT_TYPE,
+   which the client sets per method; a value without braces arrives verbatim *)
 Theorem C13_env_entries_arrive_partial :
   forall cs sv r q f el k,
   env_list cs sv r q f = Ok el ->
   mem k (map (fun kv => env_name (fst kv)) (q_headers q)) = false ->
   mem k METHOD_VARS = false ->
-  forall v, env_lookup k (r_env r) = Some v -> env_lookup k el = Some v.
+  forall v, env_lookup k (r_env r) = Some v ->
+  exists out, cfg_expand q v = Ok out /\ env_lookup k el = Some out /\
+              (C19_Model.has_brace v = false -> out = v).
 Proof. exact env_entries_arrive. Qed.
 Print Assumptions C13_env_entries_arrive_partial.
+
+(* "the responder receives exactly … the configured env entries": for EVERY rule, request and
+   configured entry (same provisos), the value received is the TEMPLATE of the configured value —
+   a function of the configured text alone (C20_template_total, C20_replace_factorises) — rendered
+   with the request's substitution function, whose empty value is the EMPTY STRING
+   (NewReplacer(r, nil, "")). *)
+Theorem C13_env_configured_entries_exact :
+  forall cs sv r q f el k v,
+  env_list cs sv r q f = Ok el ->
+  mem k (map (fun kv => env_name (fst kv)) (q_headers q)) = false ->
+  mem k METHOD_VARS = false ->
+  env_lookup k (r_env r) = Some v ->
+  exists t, C20_Model.template v = Ok t /\
+            env_lookup k el = Some (C20_Model.render (cfg_gs q) t) /\
+            C20_Model.e_empty (cfg_renv CFG_EMPTY q) = [].
+Proof. exact env_configured_entries_exact. Qed.
+Print Assumptions C13_env_configured_entries_exact.
+
+(* ... and these are the placeholders that render as the empty string: a request header, cookie
+   or query argument the request does not carry, any response header, the recorder and TLS
+   placeholders (no recorder, plain HTTP), and every unknown placeholder *)
+Theorem C13_env_absent_value_is_empty_string :
+  forall q key, absent_for q key -> cfg_gs q key = [].
+Proof. exact cfg_absent_empty. Qed.
+Print Assumptions C13_env_absent_value_is_empty_string.
+
+(* building the variables never fails once canSplit has accepted the path (Replace is total) *)
+Theorem C13_env_total :
+  forall cs sv r q f, can_split cs r f = true -> exists el, env_list cs sv r q f = Ok el.
+Proof. exact env_list_total. Qed.
+Print Assumptions C13_env_total.
+
+Definition ex_q : request :=
+  {| q_method := bs "POST"; q_path := bs "/x.php"; q_query := bs "a=1"; q_requri := bs "/x.php?a=1";
+     q_host := bs "h.test:8080"; q_remote := bs "[::1]:9"; q_proto := bs "HTTP/1.1";
+     q_headers := [(bs "X-Forwarded-For", [bs "a"; bs "b"]); (bs "Content-Length", [bs "3"])];
+     q_prefix := [SLASH]; q_user := []; q_cl := 3%Z;
+     q_cookies := [(bs "sid", bs "abc")]; q_qargs := [(bs "a", bs "1")]; q_osenv := [];
+     q_host_hp := Some (bs "h.test", bs "8080"); q_remote_hp := Some (bs "::1", bs "9"); q_tls := None |}.
+Definition ex_sv : server := {| sv_name := bs "s"; sv_port := bs "80"; sv_software := bs "Casket"; sv_version := bs "1" |}.
+Definition ex_rule : rule :=
+  {| r_path := r_path php_rule; r_ext := r_ext php_rule; r_split := r_split php_rule; r_index := [];
+     r_except := [];
+     r_env := [(bs "AUTH_USER", bs "{>X-Auth-User}"); (bs "CIPHER", bs "{tls_cipher}");
+               (bs "MIXED", bs "u={>X-Auth-User};h={host};m={method};c={~sid};q={?a}{?zz}");
+               (bs "SERVER_NAME", bs "{hostonly}"); (bs "LIT", bs "plain")];
+     r_root := r_root php_rule |}.
+
+Example C13_env_configured_entries_exact_nonvacuous :
+  match env_list false ex_sv ex_rule ex_q (bs "/x.php") with
+  | Ok el => env_lookup (bs "AUTH_USER") el = Some [] /\
+             env_lookup (bs "CIPHER") el = Some [] /\
+             env_lookup (bs "MIXED") el = Some (bs "u=;h=h.test:8080;m=POST;c=abc;q=1") /\
+             env_lookup (bs "SERVER_NAME") el = Some (bs "h.test") /\
+             env_lookup (bs "LIT") el = Some (bs "plain")
+  | Panic => False
+  end.
+Proof. vm_compute. repeat split; reflexivity. Qed.
+
+(* HTTPS=on reaches the responder exactly on TLS connections and REQUEST_SCHEME says https exactly
+   there — for EVERY rule and request that does not configure these names itself *)
+Theorem C13_env_scheme_vars :
+  forall cs sv r q f el,
+  env_list cs sv r q f = Ok el ->
+  (forall k, In k [bs "HTTPS"; bs "REQUEST_SCHEME"] ->
+     mem k (map (fun kv => env_name (fst kv)) (q_headers q)) = false /\ env_lookup k (r_env r) = None) ->
+  env_lookup (bs "HTTPS") el = match q_tls q with Some _ => Some (bs "on") | None => None end /\
+  env_lookup (bs "REQUEST_SCHEME") el = Some (match q_tls q with Some _ => bs "https" | None => bs "http" end).
+Proof. exact env_scheme_vars. Qed.
+Print Assumptions C13_env_scheme_vars.
+
+Definition ex_q_tls : request :=
+  {| q_method := bs "GET"; q_path := bs "/x.php"; q_query := []; q_requri := bs "/x.php";
+     q_host := bs "h.test"; q_remote := bs "10.0.0.1:1"; q_proto := bs "HTTP/2.0"; q_headers := [];
+     q_prefix := [SLASH]; q_user := []; q_cl := 0%Z; q_cookies := []; q_qargs := []; q_osenv := [];
+     q_host_hp := None; q_remote_hp := Some (bs "10.0.0.1", bs "1"); q_tls := Some (772, 4865) |}.
+
+(* TLS 1.3 with a TLS 1.3 suite: no mod_ssl name for either, the replacer says tls1.3 / UNKNOWN *)
+Example C13_env_scheme_vars_nonvacuous :
+  match env_list false ex_sv ex_rule ex_q_tls (bs "/x.php"), env_list false ex_sv ex_rule ex_q (bs "/x.php") with
+  | Ok el, Ok el0 =>
+      env_lookup (bs "HTTPS") el = Some (bs "on") /\ env_lookup (bs "REQUEST_SCHEME") el = Some (bs "https") /\
+      env_lookup (bs "SSL_PROTOCOL") el = None /\ env_lookup (bs "CIPHER") el = Some (bs "UNKNOWN") /\
+      env_lookup (bs "HTTPS") el0 = None /\ env_lookup (bs "REQUEST_SCHEME") el0 = Some (bs "http")
+  | _, _ => False
+  end.
+Proof. vm_compute. repeat split; reflexivity. Qed.
+
+Example C13_env_absent_value_is_empty_string_nonvacuous :
+  absent_for ex_q (bs "{>X-Auth-User}") /\ absent_for ex_q (bs "{~nocookie}") /\
+  absent_for ex_q (bs "{?zz}") /\ absent_for ex_q (bs "{tls_cipher}") /\ absent_for ex_q (bs "{nope}").
+Proof.
+  repeat split.
+  - left. exists (bs "X-Auth-User"). vm_compute. repeat split; reflexivity.
+  - right; left. exists (bs "nocookie"). vm_compute. repeat split; reflexivity.
+  - right; right; left. exists (bs "zz"). vm_compute. repeat split; reflexivity.
+  - right; right; right; right; right; left. split; [reflexivity|]. vm_compute. tauto.
+  - right; right; right; right; right; right. exists 110. vm_compute. repeat split; reflexivity.
+Qed.
 
 Example C13_split_env_spec_nonvacuous :
   split_at false php_rule (bs "/a/X.PHP/extra.php") = Ok (bs "/a/X.PHP", bs "/extra.php").
 Proof. vm_compute. reflexivity. Qed.
 
 Example C13_env_headers_arrive_nonvacuous :
-  let q := {| q_method := bs "POST"; q_path := bs "/x.php"; q_query := []; q_requri := bs "/x.php";
-              q_host := bs "h"; q_remote := bs "[::1]:9"; q_proto := bs "HTTP/1.1";
-              q_headers := [(bs "X-Forwarded-For", [bs "a"; bs "b"]); (bs "Content-Length", [bs "3"])];
-              q_prefix := [SLASH]; q_user := []; q_cl := 3%Z |} in
-  let sv := {| sv_name := bs "s"; sv_port := bs "80"; sv_software := bs "Casket"; sv_version := bs "1" |} in
-  match env_list false sv php_rule q (bs "/x.php") with
+  match env_list false ex_sv php_rule ex_q (bs "/x.php") with
   | Ok el => env_lookup (bs "HTTP_X_FORWARDED_FOR") el = Some (bs "a, b") /\
              env_lookup (bs "REMOTE_ADDR") el = Some (bs "::1") /\
              env_lookup (bs "CONTENT_LENGTH") el = Some (bs "3") /\
